@@ -195,8 +195,9 @@ def pipeline(root, part, rng, tier):
             if not armed:
                 part.violation("limit-lost/executor-sets-no-alarm/" + form, dict(wit, summary="%s: echsx runs the job without any deadline" % ev["spec"]))
                 continue
-            if abs(armed[0] - L) > 1:
-                part.violation("limit-wrong/executor-alarm/" + form, dict(wit, summary="%s: limit %d s, echsx arms alarm(%d)" % (ev["spec"], L, armed[0])))
+            if any(abs(a - L) > 1 for a in armed):
+                bad = [a for a in armed if abs(a - L) > 1][0]
+                part.violation("limit-wrong/executor-alarm/" + form, dict(wit, summary="%s: limit %d s, echsx arms alarm(%d)" % (ev["spec"], L, bad)))
                 continue
             sig = echsx.jfield(r.journal, "X-SIGNAL")
             xs = echsx.jfield(r.journal, "X-EXIT-STATUS")
@@ -214,7 +215,11 @@ def pipeline(root, part, rng, tier):
                 elif real is not None and target + 1.0 < real < 5.0:
                     # killed by the deadline's signal, but late: a loaded machine, not a wrong deadline (that was judged above)
                     part.inconclusive.append({"why": "kill arrived %.2f s after a %.2f s limit (machine load)" % (real, target)})
-                elif real is None or real >= 5.0 or real < target * 0.2:
+                elif real is not None and real < target * 0.2:
+                    # the alarm is armed (with the right argument, judged above) before echsx prepares and spawns the job:
+                    # on a loaded machine the scaled quarter of a second can be over by then.  Not a verdict on the code
+                    part.inconclusive.append({"why": "the scaled deadline (%.2f s) ran out while echsx was still preparing the job (machine load)" % target})
+                elif real is None or real >= 5.0:
                     part.violation("killed-at-wrong-time/" + form, dict(wit, summary="%s: killed after %s s, the (scaled) limit is %.2f s" % (ev["spec"], real, target)))
                 else:
                     part.nontrivial.add("killed %s L=%d" % (form, L))
@@ -232,7 +237,9 @@ def pipeline(root, part, rng, tier):
                 part.count("jobs_ending_before_their_limit")
                 want = re.search(r"x:(\d+)", ev["text"])
                 want = want.group(1) if want else "0"
-                if sig is not None or xs != want:
+                if sig == "24" and real is not None and real < 0.05:
+                    part.inconclusive.append({"why": "the scaled deadline ran out while echsx was still preparing a short job (machine load)"})
+                elif sig is not None or xs != want:
                     part.violation("short-job-disturbed/" + form, dict(wit, summary="%s: a job ending before its limit is reported with signal %s status %s, expected exit %s"
                                                                       % (ev["spec"], sig, xs, want)))
                 else:
